@@ -664,8 +664,12 @@ tcptran_ep_close(void *arg)
 	NNI_LIST_FOREACH (&ep->negopipes, p) {
 		nni_pipe_close(p->npipe);
 	}
-	NNI_LIST_FOREACH (&ep->waitpipes, p) {
+	// a pipe that finished negotiating but was never matched with an accept
+	// still carries its creator's reference: drop it with the close
+	while ((p = nni_list_first(&ep->waitpipes)) != NULL) {
+		nni_list_remove(&ep->waitpipes, p);
 		nni_pipe_close(p->npipe);
+		nni_pipe_rele(p->npipe);
 	}
 	nni_mtx_unlock(&ep->mtx);
 }
